@@ -57,6 +57,7 @@ class SymEnv:
         for nm in names:
             sc.CTX.defs[nm] = ('input',)
             sc.CTX.inputs[nm] = ('group',)
+            sc.CTX.bounds[nm] = (Fr(-1), Fr(1))
             vs.append(SReal.var(nm))
         last = names[-1]
         repl = Poly.const(1)
@@ -79,6 +80,7 @@ class SymEnv:
         for nm in flat:
             sc.CTX.defs[nm] = ('input',)
             sc.CTX.inputs[nm] = ('group',)
+            sc.CTX.bounds[nm] = (Fr(-1), Fr(1))
         for lm, repl in _so_groebner(n):
             sc.CTX.rules.add(tuple((name + v[1:], e) for v, e in lm), _rename(repl, name))
         M = [[sc.CTX.zv(x) for x in r] for r in names]
@@ -648,18 +650,25 @@ class SymChecker:
 
 
 def _run_cvc5(smt2, ms):
-    import shutil
-    exe = shutil.which('cvc5')
-    if not exe:
-        return 'absent'
-    txt = '(set-logic QF_NRA)\n' + smt2
-    try:
-        p = subprocess.run([exe, '--lang=smt2', '--nl-cov', '--tlimit=%d' % ms], input=txt, capture_output=True, text=True,
-                           timeout=ms / 1000 + 5)
-    except subprocess.TimeoutExpired:
-        return 'timeout'
-    out = p.stdout.strip().splitlines()
-    return out[0] if out else 'error'
+    """cvc5 (Python API 1.4, coverings-based nonlinear solver) on the SMT-LIB text of the z3 query"""
+    import cvc5
+    from cvc5 import InputParser, SymbolManager
+    s = cvc5.Solver()
+    s.setOption('nl-cov', 'true')
+    s.setOption('tlimit-per', str(int(ms)))
+    s.setLogic('QF_NRA')
+    sm_ = SymbolManager(s)
+    ip = InputParser(s, sm_)
+    ip.setStringInput(cvc5.InputLanguage.SMT_LIB_2_6, smt2 + '\n(check-sat)\n', 'q')
+    res = None
+    while True:
+        cmd = ip.nextCommand()
+        if cmd.isNull():
+            break
+        out = cmd.invoke(s, sm_)
+        if out and out.strip() in ('sat', 'unsat', 'unknown'):
+            res = out.strip()
+    return res or 'unknown'
 
 
 def _strip(sig):
